@@ -29,8 +29,8 @@ func (c *ProxyConfig) setRestartNeededProps() {
 }
 
 func (c *ProxyConfig) verify(v view) error {
-	if c.Listen.pending(v) == "" {
-		return fmt.Errorf("proxy.listen cannot be empty")
+	if err := verifyListenAddress("proxy.listen", c.Listen.pending(v)); err != nil {
+		return err
 	}
 	if c.CaCert.pending(v) == "" {
 		return fmt.Errorf("proxy.ca_cert cannot be empty")
